@@ -12,6 +12,7 @@ import (
 	"bytes"
 	"encoding/json"
 	"fmt"
+	"crypto/ecdsa"
 	"math/big"
 	"os"
 	"strconv"
@@ -124,17 +125,17 @@ func (s *searcher) authentic(c chainCfg, height uint64, tx *types.Transaction, c
 		pre, _ = rlp.EncodeToBytes([]interface{}{et.Nonce(), et.GasPrice(), et.Gas(), et.To(), et.Value(), et.Data(), chain, uint(0), uint(0)})
 	}
 	if sv.Cmp(secpHalfN) > 0 || r.Sign() == 0 || sv.Sign() == 0 || r.Cmp(secpNConst()) >= 0 {
-		s.report("eth-signature-out-of-range-accepted", "accepted although r/s are out of range or s is high", c, height, tx)
+		s.report("eth-unsigned-accepted", "accepted although r/s are out of range or s is high: the payload carries no valid signature", c, height, tx)
 		return
 	}
 	sig := append(append(pad32(r.Bytes()), pad32(sv.Bytes())...), byte(d.Uint64()))
 	pub, err := crypto.Ecrecover(refKeccak(pre), sig)
 	if err != nil {
-		s.report("eth-unrecoverable-accepted", "accepted although the signature does not recover", c, height, tx)
+		s.report("eth-unsigned-accepted", "accepted although the signature does not recover to any key", c, height, tx)
 		return
 	}
 	if ok, _ := curveHolds(pub, refKeccak(pre), r, sv); !ok {
-		s.report("eth-recovered-key-does-not-verify", "accepted, but the recovered key does not satisfy the ECDSA equation", c, height, tx)
+		s.report("eth-unsigned-accepted", "accepted, but the recovered key does not satisfy the ECDSA equation", c, height, tx)
 	}
 	addr := "0x" + hx.Hex(refKeccak(pub[1:])[12:])
 	if tx.Source != addr {
@@ -182,8 +183,27 @@ func search(a map[string]string, pool service.TransactionPool) {
 		if got != refAddress(&k.PublicKey) {
 			c := cfgs[0]
 			c.apply()
-			tx := g.honestNative(k, common.ChainId(0))
+			tx := g.honestNative(k, refChainIdStr(c, 0))
 			s.report("address-not-reference", "PublicKey.GetAddress() = "+got+" but the address of this key (last 20 bytes of Keccak-256(X32||Y32)) is "+refAddress(&k.PublicKey)+"; key "+hx.Hex(pk), c, 0, tx)
+		}
+	}
+	// fork boundary family (deterministic, first): at P-1, P, P+1 the transaction honestly signed for
+	// the chain id in force is admitted and the one for the other id is not
+	for _, fk := range []*ecdsa.PrivateKey{kp.short[0], g.key()} {
+		for _, fc := range forkCases(g, fk) {
+			chainIdReferenceCheck(fc.c, fc.height)
+			distinct++
+			acc := s.accept(fc.c, fc.height, fc.tx)
+			form := "native"
+			if fc.eth {
+				form = "eth"
+			}
+			if fc.want && !acc {
+				s.report("honest-rejected:"+form, "honestly signed transaction for the chain id in force rejected at the fork boundary ("+fc.tag+", height "+strconv.FormatUint(fc.height, 10)+")", fc.c, fc.height, fc.tx)
+			}
+			if !fc.want && acc {
+				s.report(form+"-other-chain-accepted", "transaction honestly signed for the chain id NOT in force admitted at the fork boundary ("+fc.tag+", height "+strconv.FormatUint(fc.height, 10)+")", fc.c, fc.height, fc.tx)
+			}
 		}
 	}
 	for i := 0; i < n; i++ {
@@ -197,7 +217,8 @@ func search(a map[string]string, pool service.TransactionPool) {
 		if i%2 == 0 && len(kp.short) > 0 {
 			k = kp.short[(i/2)%len(kp.short)]
 		}
-		cid := common.ChainId(height)
+		chainIdReferenceCheck(c, height)
+		cid := refChainIdStr(c, height)
 		other := c.orig
 		if other == cid {
 			other = c.chainId
@@ -304,10 +325,7 @@ func search(a map[string]string, pool service.TransactionPool) {
 			}
 		}
 		// ---- ethereum
-		chain := common.GetChainId(height)
-		if chain == nil {
-			chain = new(big.Int)
-		}
+		chain := refEthChain(c, height)
 		et, err := eth_tx.SignTx(g.ethUnsigned(), eth_tx.NewEIP155Signer(chain), k)
 		if err != nil {
 			panic(err)
@@ -326,6 +344,12 @@ func search(a map[string]string, pool service.TransactionPool) {
 				if m.auth && acc {
 					s.report("eth-mutant-accepted:"+m.field, "single-field mutant of an accepted wrapped transaction is accepted", c, height, m.tx)
 				}
+			}
+		}
+		for _, uc := range unsignedCases(g, et, k, chain) {
+			distinct++
+			if s.accept(c, height, uc.tx) {
+				s.report("eth-unsigned-accepted", "a wrapped transaction whose payload carries no valid signature ("+uc.name+": invalid r/s/v class / declared Source) is admitted — accepted must imply a valid signature recovering to the declared Source", c, height, uc.tx)
 			}
 		}
 		for bit := 0; bit < 8*len(enc); bit++ {
